@@ -134,6 +134,7 @@ Proof. vm_compute. repeat split; reflexivity. Qed.
      Config.Check            range c.Operators, range c.ConstExprFns   -> pm_ops, pm_cfns
      CreateTypesTable        v.MapKeys()                                -> pm_tab (EMap)
      FieldsFromStruct        range FieldsFromStruct(f.Type)             -> pm_tab (ffs_step)
+                             range types (selector-rule resolution)     -> pm_tab (resolve_entries)
      docgen                  tables and documentation maps              -> Ty/TypesTable.v doc_names
    A new entry (say `range c.index` in the compiler) makes this lemma fail. *)
 Definition expected_map_ranges : list (string * string * rclass) := [
@@ -141,6 +142,7 @@ Definition expected_map_ranges : list (string * string * rclass) := [
   ("conf.Config.Check", "c.Operators", RMap);
   ("conf.CreateTypesTable", "v.MapKeys()", RMapKeys);
   ("conf.FieldsFromStruct", "FieldsFromStruct(f.Type)", RMap);
+  ("conf.FieldsFromStruct", "types", RMap);
   ("docgen.Context.Markdown", "c.Types", RMap);
   ("docgen.Context.Markdown", "c.Variables", RMap);
   ("docgen.Context.use", "conf.FieldsFromStruct(t)", RMap);
